@@ -188,6 +188,11 @@ func (env *Env) ctor(t Ty, parsed bool) px.Type {
 		return types.NewTimestampType(tsTime(t.Lo, t.NLo), tsTime(t.Hi, t.NHi))
 	case "strsz":
 		return types.NewStringType(sizeType(t.Lo, t.Hi), "")
+	case "strraw":
+		if t.Lo > t.Hi {
+			panic("min > max")
+		}
+		return types.NewStringType(types.NewIntegerType(t.Lo, t.Hi), "")
 	case "strval":
 		// NewStringType(nil, "") answers the default String type; the type of a string literal (the
 		// only way to a vcStringType of the empty string) is what its PType() returns.
